@@ -399,8 +399,6 @@ deriving Repr, DecidableEq
 
 def setAdd (s : List Str) (x : Str) : List Str := if s.contains x then s else s ++ [x]
 
-/-- `HeaderSet(headers)` -/
-def construct (hs : List Str) : St := ⟨hs, hs.foldl (fun s h => setAdd s (lower h)) []⟩
 
 /-- delete the first member that equals `key` after lower-casing (the loop of `remove`) -/
 def dropFirst (key : Str) : List Str → List Str
@@ -419,6 +417,10 @@ def updateLoop (c : St) : List Str → St × Bool
     let key := lower h
     if c.set.contains key then updateLoop c t
     else ((updateLoop ⟨c.headers ++ [h], c.set ++ [key]⟩ t).1, true)
+
+/-- `HeaderSet(headers)` (as repaired by 1a2e0e6): both containers are built the way `update()`
+builds them - a header given in two spellings is kept once, the first spelling wins -/
+def construct (hs : List Str) : St := (updateLoop ⟨[], []⟩ hs).1
 
 /-- `HeaderSet.update(iterable)` -/
 def update (c : St) (hs : List Str) : Out Unit :=
